@@ -85,19 +85,24 @@ static void set_position(struct context_data *ctx, int pos, int dir)
 
 		p->sequence = seq;
 
-		if (pos >= 0) {
+		if (pos >= 0 && pos < mod->len) {
 			int pat;
 
 			while (has_marker && mod->xxo[pos] == 0xfe) {
 				if (dir < 0) {
 					if (pos > start) {
 						pos--;
+					} else {
+						break;
 					}
 				} else {
 					pos++;
+					if (pos >= mod->len) {
+						break;
+					}
 				}
 			}
-			pat = mod->xxo[pos];
+			pat = pos < mod->len ? mod->xxo[pos] : 0xff;
 
 			if (pat < mod->pat) {
 				if (has_marker && pat == 0xff) {
